@@ -50,6 +50,11 @@ def make_cfg(seed, i):
         lo, hi = c - w, c + w
         cfg["lower"], cfg["upper"] = lo.tolist(), hi.tolist()
         x0 = lo + rng.random(n) * (hi - lo)
+        u = r()
+        if u < 0.2:      # a corner of the box
+            x0 = np.where(rng.random(n) < 0.5, lo, hi)
+        elif u < 0.4:    # outside the box (solve moves it onto the boundary)
+            x0 = x0 + (hi - lo) * rng.normal(size=n) * 1.5
         if mode == 2:
             args["scaling_within_bounds"] = True
             args["rhobeg"] = 0.1
